@@ -167,6 +167,7 @@ type Engine struct {
 	randCtr     int
 	syncMaps    map[*Value]*Map
 	onceDone    map[*Value]bool
+	pools       map[*Value][]Value // sync.Pool contents (model: LIFO)
 	randLog     []randCall
 }
 
@@ -314,9 +315,8 @@ func (e *Engine) decideK(c *Term, k uint64, free bool) bool {
 	if c.IsConst() {
 		return c.BV == 1
 	}
-	if e.inInit {
-		panic(engineError{"symbolic decision during package initialisation"})
-	}
+	// (decisions during package initialisation are ordinary decisions: initialisation is re-executed at the start
+	// of every path, under the same decision prefix)
 	// a condition already decided on this path keeps its value (no query, no trace entry)
 	if v, ok := e.decided[c]; ok {
 		return v
@@ -726,6 +726,7 @@ func (e *Engine) runPath(prefix []Dec) (end pathEnd) {
 	e.randLog = nil
 	e.syncMaps = nil
 	e.onceDone = nil
+	e.pools = nil
 
 	// solver stack: keep the frames that agree with the new prefix
 	common := 0
@@ -773,6 +774,9 @@ func (e *Engine) runInit(p *ssa.Package) {
 	defer func() {
 		if r := recover(); r != nil {
 			if pe, ok := r.(pathEnd); ok {
+				if pe.kind == "assume" {
+					panic(r) // an infeasible environment choice made during initialisation ends the path as anywhere else
+				}
 				e.x.inconclusive(fmt.Sprintf("package init of %s incomplete: %s", p.Pkg.Path(), pe.msg))
 				return
 			}
